@@ -33,7 +33,8 @@ META = {
     'rule': ('timestamps: exhaustive ms windows [0,2e6), 2e6 around 1.79e12 and +-2000 around every 2**k '
              '(k=20..53 in ms and in s*1000 grid), log-uniform samples to 2**53/1000; decimals: exhaustive 1-4 digit '
              'coefficients x exp -18..18 x sign, hypothesis for 1-18 digits; durations/date-times/lexical forms by '
-             'hypothesis; non-trivial = value needs > 15 significant digits, or has a negative exponent/fraction, or '
+             'hypothesis; part props: every attribute / element-text property with a scalar (or list of scalars) converter reads '
+             'inside and outside lexical forms exactly as its converter does; non-trivial = value needs > 15 significant digits, or has a negative exponent/fraction, or '
              'a ms value that is not exactly representable as float seconds (off the float grid); distinct by value'),
     'assumptions': ['STRICT_VALUE_CHECK left at its default', 'DecimalConverter.USE_DECIMAL_TYPE left at True',
                     'whitespace around lexical values is outside the explored region (the statement is silent)'],
@@ -619,6 +620,134 @@ def outside_mut(ctx, case):
     return outside_case(kind, s)
 
 
+
+# ---------------------------------------------------------------- part props: the same conversion through every property
+VALID_FORMS = {'decimal': ['0', '-3.5', '+0.001', '12', '100', '120.0'], 'int': ['0', '-12', '+7', '100'],
+               'uint': ['0', '7', '100'], 'bool': ['true', 'false', '0', '1'], 'timestamp': ['0', '1001', '1790000000000'],
+               'duration': ['PT0S', 'PT1H2M3S', 'PT0.5S']}
+OUTSIDE_FORMS = {'decimal': DEC_OUTSIDE, 'int': INT_OUTSIDE, 'uint': INT_OUTSIDE + ['-1'], 'bool': BOOL_OUTSIDE,
+                 'timestamp': TS_OUTSIDE, 'duration': DUR_OUTSIDE}
+
+
+def _kind_of_converter(conv):
+    dc = _conv()
+    c = conv if isinstance(conv, type) else type(conv)
+    if isinstance(conv, dc.ListConverter):
+        inner = _kind_of_converter(conv._element_converter)  # noqa: SLF001
+        return None if inner is None else 'list:' + inner
+    for klass, kind in ((dc.DecimalConverter, 'decimal'), (dc.UnsignedIntConverter, 'uint'), (dc.UnsignedLongConverter, 'uint'),
+                        (dc.IntegerConverter, 'int'), (dc.BooleanConverter, 'bool'), (dc.TimestampConverter, 'timestamp'),
+                        (dc.DurationConverter, 'duration')):
+        if c is klass or (isinstance(c, type) and issubclass(c, klass)):
+            return kind
+    return None
+
+
+def scalar_properties():
+    """[(class name, member, property, kind, 'attr' | 'text')] for every member whose value goes through a scalar converter."""
+    from sdc11073.xml_types import xml_structure as xs
+    from vf.gen import types as T
+    out, seen = [], set()
+    for cname, cls in sorted(T.all_classes().items()):
+        try:
+            props = T.new_instance(cls).sorted_container_properties()
+        except Exception:  # noqa: BLE001
+            continue
+        for name, prop in props:
+            if id(prop) in seen:
+                continue
+            seen.add(id(prop))
+            kind = _kind_of_converter(getattr(prop, '_converter', None))
+            if kind is None:
+                continue
+            if isinstance(prop, (xs._AttributeBase, xs._AttributeListBase)):  # noqa: SLF001
+                out.append((cname, name, prop, kind, 'attr'))
+            elif isinstance(prop, xs.NodeTextProperty):
+                out.append((cname, name, prop, kind, 'text'))
+    return out
+
+
+def _read_through_property(prop, where, lexical):
+    from lxml import etree
+    node = etree.Element('{urn:vf}probe')
+    if where == 'attr':
+        node.set(prop._attribute_name, lexical)  # noqa: SLF001
+    else:
+        child = etree.SubElement(node, prop._sub_element_name)  # noqa: SLF001
+        child.text = lexical
+    return prop.get_py_value_from_node(None, node)
+
+
+def props_part(ctx):
+    """Every property that reads a scalar (or a list of scalars) must read each lexical form exactly as its converter
+    does: the same value for a form inside the type, an error for a form outside of it (the converters themselves are
+    judged by the other parts)."""
+    dc = _conv()
+    conv_of = {'decimal': dc.DecimalConverter, 'int': dc.IntegerConverter, 'uint': dc.UnsignedIntConverter,
+               'bool': dc.BooleanConverter, 'timestamp': dc.TimestampConverter, 'duration': dc.DurationConverter}
+    errors = (ValueError, TypeError, ArithmeticError, KeyError)
+    n_props = 0
+    for cname, member, prop, kind, where in scalar_properties():
+        n_props += 1
+        is_list = kind.startswith('list:')
+        base = kind.split(':')[-1]
+        conv = prop._converter._element_converter if is_list else prop._converter  # noqa: SLF001
+        for inside, forms in ((True, VALID_FORMS[base]), (False, OUTSIDE_FORMS[base])):
+            for form in forms:
+                if where == 'text' and form == '':
+                    continue  # (an empty element has no text)
+                if is_list and (form == '' or ' ' in form):
+                    continue  # (the list separator)
+                lexical = f'{VALID_FORMS[base][1]} {form}' if is_list else form
+                try:
+                    want = ('value', conv.to_py(form))
+                except errors:
+                    want = ('error', None)
+                try:
+                    got = _read_through_property(prop, where, lexical)
+                    got = ('value', got[-1] if is_list and isinstance(got, list) and got else got)
+                except errors:
+                    got = ('error', None)
+                ctx.case(['prop', cname, member, lexical], not inside, 'props', classes=(kind, where))
+                if got != want and not (got[0] == want[0] == 'value' and repr(got[1]) == repr(want[1])):
+                    sig = f'{P}/outside/boolean' if base == 'bool' and want[0] == 'value' else (
+                        f'{P}/property-reads-differently/{type(prop).__name__}/{kind}')
+                    ctx.finding(sig, f'{cname.split(".")[-1]}.{member} reads {lexical!r} as {got}, its converter '
+                                     f'{type(conv).__name__ if not isinstance(conv, type) else conv.__name__} gives {want}',
+                                {'cls': cname, 'member': member, 'lexical': lexical}, 'prop_one')
+    ctx.count('props/properties', n_props)
+    _ = conv_of
+
+
+def prop_one(case):
+    ctx = R.Ctx(P, 'quick', 0, {})
+    found = []
+    ctx.finding = lambda sig, detail, *_a, **_k: found.append((sig, detail))
+    for cname, member, prop, kind, where in scalar_properties():
+        if cname == case['cls'] and member == case['member']:
+            is_list = kind.startswith('list:')
+            conv = prop._converter._element_converter if is_list else prop._converter  # noqa: SLF001
+            form = case['lexical'].split(' ')[-1] if is_list else case['lexical']
+            errors = (ValueError, TypeError, ArithmeticError, KeyError)
+            try:
+                want = ('value', conv.to_py(form))
+            except errors:
+                want = ('error', None)
+            try:
+                got = _read_through_property(prop, where, case['lexical'])
+                got = ('value', got[-1] if is_list and isinstance(got, list) and got else got)
+            except errors:
+                got = ('error', None)
+            if got != want and not (got[0] == want[0] == 'value' and repr(got[1]) == repr(want[1])):
+                found.append((f'{P}/property-reads-differently/{type(prop).__name__}/{kind}',
+                              f'{member} reads {case["lexical"]!r} as {got}, its converter gives {want}'))
+    return found
+
+
+def shard_props(ctx):
+    props_part(ctx)
+
+
 # ------------------------------------------------------------------------------------------------------- run
 
 def shard_hyp(ctx, which, n):
@@ -684,6 +813,8 @@ def run(ctx):
             hyp_jobs.append((which, cnt * n))
     R.run_shards(ctx, __name__, 'shard_hyp', hyp_jobs)
     R.run_shards(ctx, __name__, 'shard_simple', [()])
+    R.run_shards(ctx, __name__, 'shard_props', [()])
+    ctx.exhaustive_parts.append('props: every scalar-valued property x the fixed lists of inside / outside lexical forms')
 
 
 def replay(part, case):
@@ -696,6 +827,8 @@ def replay(part, case):
         return simple_one(case)
     if part == 'outside_one':
         return outside_case(case['kind'], case['s'])
+    if part == 'prop_one':
+        return prop_one(case)
     fn = {'ts_py': ts_py, 'dec_sampled': dec_sampled, 'dec_lexical': dec_lexical, 'duration_py': duration_py,
           'duration_xml': duration_xml, 'datetime': datetime_case, 'outside_mut': outside_mut}.get(part)
     if fn is None:
